@@ -17,7 +17,7 @@ RULE = ("scan: generated age distributions over 0-5 mailboxes (incl. emptied one
         "an id-reuse stream removes every expired message still live (or purges) and delivers fresh mail before the first and between "
         "the scanner's removals; a stream parks a delivery between its mailbox lookup and its mailbox lock across the removal "
         "that empties the mailbox (memory store, verifhook mem.wm.lock); "
-        "a third cancels the context during the n-th callback; start: the run loop with period <= 0 and with cancellation. "
+        "a third cancels the context during the n-th callback; start: the run loop with period <= 0 and with cancellation. asm12: the assembled server (server.FullAssembly + Services.Start, child process) serves for 1.5 s a file store that already holds messages of mixed ages, with period 0 and positive periods: afterwards no unexpired message (period 0: no message at all) may be missing. "
         "distinct = distinct input line; non-trivial = the store holds at least one message before the scan.")
 TRUSTED = [
     "Model/StoreSpec.v stands for both stores (C07), store operations are atomic (C09)",
@@ -35,6 +35,8 @@ def nontrivial(kind, ins, outs):
         return any(b.split(":", 1)[1] for b in ins[2].split(";")) if ins[2] != "-" else False
     if kind == "start":
         return ins[3] != "-"
+    if kind == "asm12":
+        return True
     return False
 
 
